@@ -29,6 +29,7 @@ SCOPE = 'supp/scope.py'
 
 
 def run(repo, res):
+    from .. import api_model
     _ns, _np = R.shape_stats(repo)
     res.extra['e1_shapes_interpreted'] = _ns
     res.extra['e1_shape_paths_interpreted'] = _np
@@ -64,6 +65,9 @@ def run(repo, res):
                       'declared_at of %s (no node of its own) must come from find_id_loc started at the statement, '
                       'searching the bound identifier; found %s' % (key, bad[:2]),
                       sample='%s: declared_at = find_id_loc(identifier, np(statement))' % key)
+    # the text search itself, interpreted with the visitors' call shape on a corpus of layouts
+    from .. import textsearch
+    api_model.apply(res, textsearch.model(repo), {'text': 'C11-R3', 'text-count': 'C11-R3'}, SCOPE, 0)
     res.count('parser_positioned_binders', n1, floor=35)
     res.count('text_searched_binders', n3, floor=5)
     # fallback of the text search is the statement start
